@@ -100,3 +100,29 @@ for (tname, label) in (('x1', 'T-on-axis-1'), ('x2', 'T-on-axis-2')):
 
 from contracts import helpers
 helpers.install(P, 'kwargs', 'reaction_parser')
+
+# ---- a scanned variable that is also given as a fixed condition: the scanned value is the one that counts -------------------------
+for units in ('eV', None):
+    extra = {} if units is None else {'G_units': Const(units)}
+    conv = '' if units is None else " * const.R('eV/K') * x_values[j]"
+    contract(PD + '.get_GoRT_1D', P, label='T-scan-with-a-fixed-T-among-the-conditions,units=%s' % units,
+             args=dict(self=diagram(2), x_name=Const('T'), x_values=RealList(3, 300., 1500.), P=Real(0.01, 10.), T=Real(200., 299.), **extra),
+             requires=NORM + ['all(t > 0 for t in x_values)', 'T > 0'],
+             ensures=[('table-entries-at-the-scanned-temperature',
+                       "all(result[0][i][j] == self.reactions[i].get_delta_GoRT(T=x_values[j], P=P)"
+                       " / self.norm_factors[i]%s for i in range(2) for j in range(3))" % conv)],
+             cross_check=False)
+    contract(PD + '.get_GoRT_1D', P, label='P-scan-with-a-fixed-P-among-the-conditions,units=%s' % units,
+             args=dict(self=diagram(2), x_name=Const('P'), x_values=RealList(3, 0.01, 10.), P=Real(20., 30.), T=Real(300., 1500.), **extra),
+             requires=NORM + ['T > 0'],
+             ensures=[('table-entries-at-the-scanned-pressure',
+                       "all(result[0][i][j] == self.reactions[i].get_delta_GoRT(T=T, P=x_values[j])"
+                       " / self.norm_factors[i]%s for i in range(2) for j in range(3))" % conv.replace('x_values[j]', 'T'))],
+             cross_check=False)
+
+# ---- long sequences (declared bounded: the same clause run natively on samples; never counted as proved) ----------------------------
+for flags in ((True,) * 5, (False,) * 7, (True, False, True, True, False, True), (True,) * 12):
+    contract(RS + '.get_E_span', P, label='long-sequence,steps=%s' % ''.join('T' if f else '-' for f in flags), native_only=True,
+             args=dict(self=seq(flags), units=Const('eV'), T=T), requires=['T > 0'],
+             ensures=[('span', 'result == spec.rxn.energy_span(spec.rxn.state_energies(self, "eV", T))')],
+             cross_check=False)
